@@ -468,6 +468,23 @@ theorem C04_history_cadence (s : HState) (t : TurnIn) (h : t.enabled = true) :
   rw [hs]
   by_cases hc : shouldSnapshot t.turn t.every = true <;> simp [hc]
 
+/-- Cache clause at history level: the cache after a committed turn and the invalidation count in
+its record obey `specInvalidate` for the configuration in force *that* turn (whatever earlier
+turns were configured with). -/
+theorem C04_turn_invalidate_holds (s : HState) (t : TurnIn) (h : t.enabled = true) :
+    turnInvalidateB s t (runTurn s t) = true := by
+  unfold turnInvalidateB
+  have hl : (runTurn s t).applyRecs.getLast? =
+      some ⟨(apply (toIn s t)).version, (apply (toIn s t)).applied, (apply (toIn s t)).clamps,
+            (apply (toIn s t)).invalidated, (apply (toIn s t)).snap.isSome⟩ := by
+    simp [runTurn, h]
+  have hc : (runTurn s t).cm = (apply (toIn s t)).cm := by simp [runTurn, h]
+  rw [hl]
+  simp only
+  refine Eq.trans (specInvalidate_congr (toIn s t)
+    { (default : Out) with cm := (runTurn s t).cm, invalidated := (apply (toIn s t)).invalidated }
+    (apply (toIn s t)) hc rfl) (C04_spec_invalidate _)
+
 /-- The per-turn monitor evaluated on implementation histories holds of the model at every state. -/
 theorem C04_turnSpec_holds (s : HState) (t : TurnIn) : turnSpec s t (runTurn s t) = true := by
   unfold turnSpec
@@ -475,7 +492,8 @@ theorem C04_turnSpec_holds (s : HState) (t : TurnIn) : turnSpec s t (runTurn s t
   · obtain ⟨a, b, c, d⟩ := C04_committed_turn s t h
     have e := C04_history_cadence s t h
     obtain ⟨r, r1, r2, r3⟩ := C04_committed_turn_record s t h
-    simp only [h, if_true, a, b, c, d, r1, r2, r3, beq_self_eq_true, Bool.true_and]
+    have hi := C04_turn_invalidate_holds s t h
+    simp only [h, if_true, hi, a, b, c, d, r1, r2, r3, beq_self_eq_true, Bool.true_and]
     rw [e]
     split <;> simp
   · simp only [Bool.not_eq_true] at h
